@@ -90,6 +90,7 @@ def one_item_pages():
 
 
 def run(oc, tier, seed):
+    pagegen.SAME_DAY_MOD_RATE = 0.25
     rng = random.Random(seed)
     pool = lib.pool()
     eng = lib.Engine()
